@@ -1,5 +1,121 @@
-(* STUB: Spec layer for fadt -- to be written *)
-From Coq Require Import NArith List.
-From ACPI Require Import Lib.Bytes Lib.Sx Spec.Layout.
+(* Spec layer for the FADT (ACPI 6.5 5.2.9, revision 6 minor 5, 276 bytes), written from SPEC_NOTES.md A.1.
+
+   Case vocabulary of component 26 (shared with harness/src/t_fadt.rs and Impl/Fadt.v):
+     ctor  (oem6 tbl8 orev)                    FADTBuilder::new(oem_id, oem_table_id, oem_revision)
+     ops   builder calls applied in order to the FADTBuilder value, repetitions allowed; each emits one Num 0
+           (1 x) dsdt_32(x)   (2 x) dsdt_64(x)   (3 x) firmware_ctrl_32(x)   (4 x) firmware_ctrl_64(x)
+           (5) acpi_enable()  (6) acpi_disable() (7 i) flag(Flags #i)        (8 gpe0_blk gpe1_blk gpe0_blk_len gpe1_blk_len gpe1_base) gpe_info
+           (9 p) preferred_pm_profile(PmProfile #p)
+     Flags #i = the i-th value of enum fadt::Flags in declaration order:
+           0 Wbinvd 1 WbinvdFlush 2 ProcC1 3 PLvl2Up 4 PwrButton 5 SlpButton 6 FixRtc 7 RtcS4 8 TmrValExt 9 DckCap 10 ResetRegSup
+           11 SealedCase 12 Headless 13 CpuSwSlp 14 PciExpWak 15 UsePlatformClock 16 S4RtcStsValid 17 RemotePowerOnCapable
+           18 ForceApicClusterModel 19 ForceApicPhysicalDestinationMode 20 HwReducedAcpi 21 LowPowerS0IdleCapable
+           22 PersistentCpuCachesNotReported 23 PersistentCpuCachesNotPersistent 24 PersistentCpuCachesArePersistent
+     PmProfile #p: 0 Unspecified 1 Desktop 2 Mobile 3 Workstation 4 EnterpriseServer 5 SohoServer 6 AppliancePc
+           7 PerformanceServer 8 Tablet
+     observation `1`: a copy of the builder is finalize()d and the resulting FADT serialised. *)
+From Coq Require Import NArith List Bool.
+From ACPI Require Import Lib.Bytes Lib.Sx Spec.Layout Spec.GasS.
 Import ListNotations.
-Definition fadt_spec : tspec := null_spec.
+Open Scope N_scope.
+
+(* what the caller's builder calls determine *)
+Record fadt_vals := {
+  v_fw : N; v_xfw : N; v_dsdt : N; v_xdsdt : N; v_enable : N; v_disable : N; v_flags : N;
+  v_gpe0 : N; v_gpe1 : N; v_gpe0_len : N; v_gpe1_len : N; v_gpe1_base : N; v_profile : N }.
+
+Definition fadt_vals0 : fadt_vals :=
+  {| v_fw := 0; v_xfw := 0; v_dsdt := 0; v_xdsdt := 0; v_enable := 0; v_disable := 0; v_flags := 0;
+     v_gpe0 := 0; v_gpe1 := 0; v_gpe0_len := 0; v_gpe1_len := 0; v_gpe1_base := 0; v_profile := 0 |}.
+
+(* Flags field: bits 0..21 one flag each; bits 23:22 persistent CPU caches: 0 not reported, 1 not persistent, 2 persistent *)
+Definition flag_ref (i : N) : option N :=
+  if i <=? 21 then Some (2 ^ i)
+  else match i with
+       | 22 => Some (0 * 2 ^ 22)
+       | 23 => Some (1 * 2 ^ 22)
+       | 24 => Some (2 * 2 ^ 22)
+       | _ => None
+       end.
+
+Definition fadt_apply (v : fadt_vals) (o : sx) : option fadt_vals :=
+  let upd fw xfw dsdt xdsdt en dis flags g0 g1 l0 l1 gb p :=
+    Some {| v_fw := fw; v_xfw := xfw; v_dsdt := dsdt; v_xdsdt := xdsdt; v_enable := en; v_disable := dis; v_flags := flags;
+            v_gpe0 := g0; v_gpe1 := g1; v_gpe0_len := l0; v_gpe1_len := l1; v_gpe1_base := gb; v_profile := p |} in
+  match v with
+  | {| v_fw := fw; v_xfw := xfw; v_dsdt := dsdt; v_xdsdt := xdsdt; v_enable := en; v_disable := dis; v_flags := flags;
+       v_gpe0 := g0; v_gpe1 := g1; v_gpe0_len := l0; v_gpe1_len := l1; v_gpe1_base := gb; v_profile := p |} =>
+      match o with
+      | SL [SA 1; SA x] => if x <? 2 ^ 32 then upd fw xfw x 0 en dis flags g0 g1 l0 l1 gb p else None       (* DSDT = x, X_DSDT = 0 *)
+      | SL [SA 2; SA x] => if x <? 2 ^ 64 then upd fw xfw 0 x en dis flags g0 g1 l0 l1 gb p else None       (* DSDT = 0, X_DSDT = x *)
+      | SL [SA 3; SA x] => if x <? 2 ^ 32 then upd x 0 dsdt xdsdt en dis flags g0 g1 l0 l1 gb p else None
+      | SL [SA 4; SA x] => if x <? 2 ^ 64 then upd 0 x dsdt xdsdt en dis flags g0 g1 l0 l1 gb p else None
+      | SL [SA 5] => upd fw xfw dsdt xdsdt 1 0 flags g0 g1 l0 l1 gb p                                       (* ACPI_ENABLE = 1, ACPI_DISABLE = 0 *)
+      | SL [SA 6] => upd fw xfw dsdt xdsdt 0 1 flags g0 g1 l0 l1 gb p
+      | SL [SA 7; SA i] => match flag_ref i with
+                           | Some b => upd fw xfw dsdt xdsdt en dis (N.lor flags b) g0 g1 l0 l1 gb p
+                           | None => None
+                           end
+      | SL [SA 8; SA a; SA b; SA c; SA d; SA e] =>
+          if (a <? 2 ^ 32) && (b <? 2 ^ 32) && (c <? 256) && (d <? 256) && (e <? 256)
+          then upd fw xfw dsdt xdsdt en dis flags a b c d e p else None
+      | SL [SA 9; SA q] => if q <=? 8 then upd fw xfw dsdt xdsdt en dis flags g0 g1 l0 l1 gb q else None
+      | _ => None
+      end
+  end.
+
+Fixpoint fadt_fold (v : fadt_vals) (ops : list sx) : option fadt_vals :=
+  match ops with
+  | [] => Some v
+  | o :: r => match fadt_apply v o with Some v' => fadt_fold v' r | None => None end
+  end.
+
+(* a layout whose offsets are table offsets, starting right after the 36-byte header *)
+Definition lay_from (base size : nat) (l : layout) : option (list N) :=
+  if layout_ok_from base l && Nat.eqb (base + layout_size l) size then Some (assemble l) else None.
+
+Definition gas0 (off : nat) : layout := [L off 1 0; L (off + 1) 1 0; L (off + 2) 1 0; L (off + 3) 1 0; L (off + 4) 8 0].
+
+Definition fadt_body (v : fadt_vals) : option (list N) :=
+  lay_from 36 276
+    ([L 36 4 (v_fw v) (* FIRMWARE_CTRL *); L 40 4 (v_dsdt v) (* DSDT *); L 44 1 0; L 45 1 (v_profile v) (* Preferred_PM_Profile *);
+      L 46 2 0 (* SCI_INT *); L 48 4 0 (* SMI_CMD *); L 52 1 (v_enable v) (* ACPI_ENABLE *); L 53 1 (v_disable v) (* ACPI_DISABLE *);
+      L 54 1 0 (* S4BIOS_REQ *); L 55 1 0 (* PSTATE_CNT *);
+      L 56 4 0 (* PM1a_EVT_BLK *); L 60 4 0 (* PM1b_EVT_BLK *); L 64 4 0 (* PM1a_CNT_BLK *); L 68 4 0 (* PM1b_CNT_BLK *);
+      L 72 4 0 (* PM2_CNT_BLK *); L 76 4 0 (* PM_TMR_BLK *); L 80 4 (v_gpe0 v) (* GPE0_BLK *); L 84 4 (v_gpe1 v) (* GPE1_BLK *);
+      L 88 1 0 (* PM1_EVT_LEN *); L 89 1 0 (* PM1_CNT_LEN *); L 90 1 0 (* PM2_CNT_LEN *); L 91 1 0 (* PM_TMR_LEN *);
+      L 92 1 (v_gpe0_len v) (* GPE0_BLK_LEN *); L 93 1 (v_gpe1_len v) (* GPE1_BLK_LEN *); L 94 1 (v_gpe1_base v) (* GPE1_BASE *);
+      L 95 1 0 (* CST_CNT *); L 96 2 0 (* P_LVL2_LAT *); L 98 2 0 (* P_LVL3_LAT *); L 100 2 0 (* FLUSH_SIZE *);
+      L 102 2 0 (* FLUSH_STRIDE *); L 104 1 0 (* DUTY_OFFSET *); L 105 1 0 (* DUTY_WIDTH *); L 106 1 0 (* DAY_ALRM *);
+      L 107 1 0 (* MON_ALRM *); L 108 1 0 (* CENTURY *); L 109 2 0 (* IAPC_BOOT_ARCH *); L 111 1 0;
+      L 112 4 (v_flags v) (* Flags *)]
+     ++ gas0 116 (* RESET_REG *)
+     ++ [L 128 1 0 (* RESET_VALUE *); L 129 2 0 (* ARM_BOOT_ARCH *); L 131 1 5 (* FADT minor version *);
+         L 132 8 (v_xfw v) (* X_FIRMWARE_CTRL *); L 140 8 (v_xdsdt v) (* X_DSDT *)]
+     ++ gas0 148 (* X_PM1a_EVT_BLK *) ++ gas0 160 (* X_PM1b_EVT_BLK *) ++ gas0 172 (* X_PM1a_CNT_BLK *)
+     ++ gas0 184 (* X_PM1b_CNT_BLK *) ++ gas0 196 (* X_PM2_CNT_BLK *) ++ gas0 208 (* X_PM_TMR_BLK *)
+     ++ gas0 220 (* X_GPE0_BLK *) ++ gas0 232 (* X_GPE1_BLK *) ++ gas0 244 (* SLEEP_CONTROL_REG *)
+     ++ gas0 256 (* SLEEP_STATUS_REG *)
+     ++ [L 268 8 0 (* Hypervisor Vendor Identity *)]).
+
+Definition fadt_ref_image (ctor : sx) (ops : list sx) : option (list N) :=
+  match ctor with
+  | SL [o; t; r] =>
+      match sx_hdr_args o t r, fadt_fold fadt_vals0 ops with
+      | Some h, Some v =>
+          match fadt_body v with
+          | Some body => Some (ref_table [70; 65; 67; 80] 6 h body)       (* "FACP", major revision 6 (crate) *)
+          | None => None
+          end
+      | _, _ => None
+      end
+  | _ => None
+  end.
+
+Definition fadt_spec : tspec := {|
+  ts_image := fadt_ref_image;
+  ts_walk := None;
+  ts_entries := fun _ _ => None;
+  ts_counts := fun _ => [];
+  ts_returns := fun _ => false
+|}.
